@@ -127,7 +127,7 @@ func runC12(c *Ctx) {
 				c.fail("C12.R1", key, "the reader writes into the table bytes", m.pos(fs.Store.Pos()))
 				continue
 			}
-			g := newIG(m, fn, nil)
+			g := scanIG(m, fn, nil)
 			n := g.Idx[fs.Store]
 			facts := g.FactsAt(n)
 			val := z.Of(fs.Store.Val)
@@ -154,31 +154,40 @@ func runC12(c *Ctx) {
 					})
 					c.check(nz, "C12.R1", key, "offset-1 under offset != 0", "the offset is decremented without testing offset != 0", g.posOf(n))
 				default:
-					// clamp: phi of {x under x <= len(data), len(data)}
-					okClamp := false
-					if phi, ok := fs.Store.Val.(*ssa.Phi); ok {
-						okClamp = true
+					// clamp: the stored value is len(data), or a value under
+					// value <= len(data), or a merge of such values
+					leqLen := func(ef []Fact, pv Poly) bool {
+						return hasFact(ef, func(ft Fact) bool {
+							if ft.Y == nil {
+								return false
+							}
+							l, r := z.Of(ft.X), z.Of(ft.Y)
+							return ft.Op == token.LEQ && l.equal(pv) && r.String() == "len(data)" || ft.Op == token.GEQ && r.equal(pv) && l.String() == "len(data)"
+						})
+					}
+					var okVal func(v ssa.Value, ef []Fact, depth int) bool
+					okVal = func(v ssa.Value, ef []Fact, depth int) bool {
+						pv := z.Of(v)
+						if pv.String() == "len(data)" || leqLen(ef, pv) {
+							return true
+						}
+						phi, ok := v.(*ssa.Phi)
+						if !ok || depth > 3 {
+							return false
+						}
 						pe := g.predEdges(phi.Block())
 						for i, e := range phi.Edges {
-							pv := z.Of(e)
-							if pv.String() == "len(data)" {
-								continue
-							}
-							ef := g.FactsAt(pe[i].From)
+							f2 := g.FactsAt(pe[i].From)
 							if ft, ok := g.EdgeFact(pe[i].From, pe[i].K); ok {
-								ef = append(ef, ft)
+								f2 = append(f2, ft)
 							}
-							if !hasFact(ef, func(ft Fact) bool {
-								if ft.Y == nil {
-									return false
-								}
-								l, r := z.Of(ft.X), z.Of(ft.Y)
-								return ft.Op == token.LEQ && l.equal(pv) && r.String() == "len(data)" || ft.Op == token.GEQ && r.equal(pv) && l.String() == "len(data)"
-							}) {
-								okClamp = false
+							if !okVal(e, f2, depth+1) {
+								return false
 							}
 						}
+						return true
 					}
+					okClamp := okVal(fs.Store.Val, facts, 0)
 					c.check(okClamp, "C12.R1", key, "offset = min(value, len(data))", "the offset is set to "+val.String()+" without being clamped to len(data)", g.posOf(n))
 				}
 			}
@@ -213,7 +222,7 @@ func runC12(c *Ctx) {
 			c.fail("C12.R1", key, "the reader reslices the table bytes", m.pos(in.Pos()))
 			return
 		}
-		g := newIG(m, fn, nil)
+		g := scanIG(m, fn, nil)
 		n := g.Idx[in]
 		facts := g.FactsAt(n)
 		iv := z.Of(index).String()
